@@ -76,10 +76,38 @@ theorem C05_inv_append_array_any {h : Heap} (hs : Struct h) (ha : Acyc h) (n val
     (h.appendArray n [value]).2 = .ok () ∧ Struct (h.appendArray n [value]).1 ∧ Acyc (h.appendArray n [value]).1 :=
   struct_appendArray_any hs ha n value hn hv harr hloop
 
+/-- **AppendObject of any node under any key**: the key may be new or name a member — that member is then replaced, i.e. detached in
+the same call — and the value may be detached or attached anywhere, also to the receiver itself under this or another key (then it is
+moved). Whenever the loop guard lets the request pass it succeeds and keeps the invariant and acyclicity. (`Proofs/ObjMove`: the
+`remove` that runs on the call's intermediate heap — which does NOT satisfy the invariant: the value already names its new parent —
+commutes with the pending updates, so the call equals `remove` of the old member followed by an append under a new key.) -/
+theorem C05_inv_append_object_any {h : Heap} (hs : Struct h) (ha : Acyc h) (n value : Nat) (hn : n < h.size) (hv : value < h.size)
+    (hobj : (h.get n).type = .object) (hloop : h.isParentOrSelfNode n value = false) (k : Bytes) :
+    (h.appendObject n k value).2 = .ok () ∧ Struct (h.appendObject n k value).1 ∧ Acyc (h.appendObject n k value).1 ∧
+    (h.appendObject n k value).1.size = h.size :=
+  struct_appendObject_any hs ha n value hn hv hobj hloop k
+
+/-- a witness on the model: in `{"a":1,"b":[2,3]}` the element `b[0]` is appended to the root under the EXISTING key "a" — the old
+member is replaced, the element is moved out of the array (which is renumbered) — and the heap is well formed afterwards -/
+example :
+    (match unmarshal "{\"a\":1,\"b\":[2,3]}".toUTF8.toList with
+     | .error _ => false
+     | .ok (h0, root) =>
+       match h0.getKey (some root) [98] with
+       | .ok b =>
+         match h0.getIndex (some b) 0 with
+         | .ok x =>
+           let r := h0.appendObject root [97] x
+           r.1.wfB && (match r.2 with | .ok _ => true | _ => false) && ((r.1.get x).parent == some root) &&
+             ((r.1.childMap b).length == 1) && ((r.1.childMap root).length == 2)
+         | _ => false
+       | _ => false) = true := by decide +kernel
+
 /-! ### any history
 
 `Edit` (Proofs/History) lists the requests whose single steps are proved: the four scalar setters, DeleteKey, DeleteIndex, Delete and
-AppendArray of one node (fresh, detached or attached anywhere — then it is moved). `Edit.run` applies one to a heap and keeps the heap
+AppendArray of one node and AppendObject of one node under any key (fresh, detached or attached anywhere — then it is moved; an
+existing key — then the member it names is replaced). `Edit.run` applies one to a heap and keeps the heap
 whether the library accepts or rejects the request. -/
 
 /-- **after any edit history**: every finite sequence of these requests, addressed to ANY nodes of a sound acyclic heap (receivers and
